@@ -332,5 +332,6 @@ func init() {
 		Run:          c21run,
 		Need:         []string{"accum_calls", "candles_compared", "order_independence_checks", "row_sets_with_equal_timestamps", "calls_via_aggrunner"},
 		BatchTimeout: 20 * time.Minute,
+		ChildEnv:     []string{"GOMAXPROCS=2"}, // a case is single-threaded; keeps 16 children from running 16 GC workers each
 	})
 }
